@@ -148,7 +148,7 @@ func gen(w *kit.Out, r *kit.Rand, tier string) {
 			w.Op("%s", l)
 		}
 	}
-	nCases, nOps := 4, 45
+	nCases, nOps := 3, 35
 	if tier == "thorough" {
 		nCases, nOps = 60, 70
 	}
